@@ -604,6 +604,15 @@ def get_provider_ids_matching(rg_ctx):
         # would return the internal ID and the root ID as well for each RP.
         provs_with_resource = get_providers_with_root(
             rg_ctx.context, filtered_rps, forbidden_rp_ids)
+        # A resourceless group is matched by every provider passing the
+        # positive (if any) and forbidden trait/aggregate filters, which
+        # get_providers_with_root() has applied, within the tree given by
+        # in_tree if there is one.
+        if rg_ctx.tree_root_id is not None:
+            provs_with_resource = set(
+                rpids for rpids in provs_with_resource
+                if rpids[1] == rg_ctx.tree_root_id)
+        return list(provs_with_resource)
 
     # provs_with_resource will contain a superset of providers with IDs still
     # in our filtered_rps set. We return the list of tuples of
